@@ -22,7 +22,7 @@ ID = "C08"
 LEVEL = "exploration"
 RULE = (
     "Hypothesis RuleBasedStateMachine. Initial state: a generated file with an acyclic set of Decay blocks over real "
-    "particle names using Define'd parameters, ModelAlias'd models and (1 in 3) user-registered models, plus CopyDecay and CDecay statements (the complete "
+    "particle names and aliases using Define'd parameters, ModelAlias'd models and (1 in 3) user-registered models, plus CopyDecay and CDecay statements (the complete "
     "table set incl. copies/conjugates is kept acyclic); one long-lived parser and the snapshot of a separate fresh instance. "
     "Rules (<=30 steps): list_decay_modes, print_decay_modes with drawn options, build_decay_chains with drawn stable sets, "
     "expand_decay_modes, every dict_*/list_*/get_* query, global_photos_flag, repr, list_decay_mother_names, decay-mode "
@@ -48,6 +48,10 @@ def c08_file(draw):
     stable = draw(st.lists(st.sampled_from(paired + selfc), min_size=3, max_size=5, unique=True))
     stable = [s for s in stable if s not in owners and N.ref_conj(s) not in owners] or ["gamma"]
     stmts = [{"k": "define", "n": "dm", "v": draw(N.num_literal())}, {"k": "define", "n": "x_s", "v": draw(N.num_literal())}]
+    # aliases (used as daughters below; some also decay through a CopyDecay of their own)
+    for i in range(draw(st.integers(0, 2))):
+        stmts.append({"k": "alias", "a": f"Al{i}_x", "p": draw(st.sampled_from(stable))})
+        stable = stable + [f"Al{i}_x"]
     stmts.append({"k": "modelalias", "n": "MA", "model": draw(st.sampled_from(N.MODELS)),
                   "params": [{"t": "word", "v": "dm"}, {"t": "num", "v": "1.5"}]})
     copies = []
@@ -130,8 +134,7 @@ def mutate(x, depth=0):
         for k in list(x.keys()):
             x[k] = "__mutated__"
         x["__mutated__"] = 1
-    if depth == 0 and isinstance(x, (list, dict)):
-        x.clear()
+    # (nothing is cleared at the end: an emptied structure could pass for a legitimately empty answer)
 
 
 def _plain(x):
